@@ -495,15 +495,19 @@ func propC09(g *G, w *CaseW, rep *Report, thorough bool) {
 		case 0: // one value through ParseNameAddrPVal for each header kind
 			h := naHdrs[g.n(len(naHdrs))]
 			var t tb
+			offs := 0
+			if g.p(35) {
+				offs = t.w(g.pick("From: ", "m:", "xx", "Contact:\t", "\"")).b
+			}
 			t.w(g.pick("", " ", "\t", "\r\n "))
 			a := g.naValue(&t, h == int(sipsp.HdrContact))
 			t.w(g.pick("", " ", "\t"))
 			t.w(g.pick("\r\nX", "\nV: 1\r\n", "\r\n\r\n"))
 			text := t.sb.String()
-			in := Input{Kind: kNameAddr, A: h, Buf: text}
+			in := Input{Kind: kNameAddr, A: h, Buf: text, Offs: offs}
 			var cuts []int
-			if g.p(25) {
-				cuts = g.cuts(0, len(text))
+			if g.p(50) {
+				cuts = g.cutsFor(offs, text)
 			}
 			c := inputCase(&in, cuts)
 			out, res := runCase(c)
@@ -636,17 +640,27 @@ func propC09(g *G, w *CaseW, rep *Report, thorough bool) {
 			}
 			t.w("\r\n")
 			text := t.sb.String()
-			in := Input{Kind: kMsg, A: -1, B: []int{-1, 0, 1, 2}[g.n(4)], Buf: text}
+			in := Input{Kind: kMsg, A: -1, B: []int{-1, 0, 1, 2, 4}[g.n(5)], Buf: text}
 			c := inputCase(&in, nil)
+			reused := g.p(35)
+			if reused { // the object was used before: an abandoned parse of a prefix, then Reset
+				cutAt := 30 + g.n(len(text)-30)
+				c.Ops = []Op{{Buf: []byte(text[:cutAt])}, {Reset: true}, c.Ops[0]}
+			}
 			out, res := runCase(c)
 			w.emitCase(c, out)
 			rep.Cases++
 			rep.OracleEval++
-			if len(res) != 1 || res[0].Panic != "" {
+			if len(res) != len(c.Ops) || res[len(res)-1].Panic != "" {
 				oracleSafe(rep, c, res)
 				continue
 			}
-			x := newRun(&in, nil).obj.(*oMsg)
+			res = res[len(res)-1:]
+			xo := newObj(kMsg, in.A, in.B, 0)
+			for k := range c.Ops {
+				runOp(xo, &c.Ops[k])
+			}
+			x := xo.(*oMsg)
 			bad := ""
 			if e := res[0].Calls[0].E; e != sipsp.ErrHdrOk {
 				bad = fmt.Sprintf("well formed message rejected with %d", e)
